@@ -10,4 +10,35 @@ if [ ! -x bin/kbv ] || [ -n "$(find kbv -newer bin/kbv -name '*.go' 2>/dev/null 
   (cd kbv && go build -o ../bin/kbv .) || { echo "TOOL-ERROR: cannot build kbv"; exit 2; }
 fi
 export KBV_WORK="${KBV_WORK:-/verif/.work}"
-exec bin/kbv check -prop "$PROP" -tier "$TIER" -repo "${KBV_REPO:-/repo}"
+REPO="${KBV_REPO:-/repo}"
+if [ "$TIER" != "thorough" ]; then
+  exec bin/kbv check -prop "$PROP" -tier "$TIER" -repo "$REPO"
+fi
+# thorough: longer limits, every back end must answer, and afterwards the must-fail corpus: the
+# seeded breaking changes recorded for this property (seeded/*/meta.json, canary_for) are applied
+# to scratch copies of the tree and have to be reported
+bin/kbv check -prop "$PROP" -tier "$TIER" -repo "$REPO"; rc=$?
+[ $rc -eq 0 ] || exit $rc
+out=$(tools/canaries.sh "$PROP" "$REPO"); crc=$?
+echo "$out"
+python3 - "$PROP" "$out" <<'PY'
+import json, re, sys
+prop, out = sys.argv[1], sys.argv[2]
+m = re.search(r'detected=(\d+) missed=(\d+) skipped=(\d+)', out)
+p = '/verif/evidence/%s.json' % prop
+try:
+    e = json.load(open(p))
+    if m:
+        e['coverage']['canaries_detected'] = int(m.group(1))
+        e['coverage']['canaries_missed'] = int(m.group(2))
+        e['coverage']['canaries_skipped'] = int(m.group(3))
+        e['coverage']['canaries'] = [l for l in out.splitlines() if l.startswith('CANARY-')]
+    json.dump(e, open(p, 'w'), indent=1)
+except Exception as ex:
+    print("NOTE: canary results not merged into the evidence file:", ex)
+PY
+if [ $crc -ne 0 ]; then
+  echo "TOOL-ERROR: a seeded breaking change that applies to this tree was not reported: the check cannot vouch for property $PROP"
+  exit 2
+fi
+exit 0
